@@ -32,7 +32,7 @@ from vlib import core, upstream, scenario
 PID = 'C18'
 LEVEL = 'exploration'
 BUDGET_S = {'quick': 40, 'thorough': 600}
-FLOORS = {'quick': {'requests': 7500, 'base_requests': 700, 'base_requests_answered_ok': 600, 'requests_wms': 3900,
+FLOORS = {'quick': {'overlap_rounds': 100, 'overlapped_requests': 300, 'requests': 7500, 'base_requests': 700, 'base_requests_answered_ok': 600, 'requests_wms': 3900,
                     'requests_wmts': 800, 'requests_wmts_rest': 650, 'requests_tms': 650, 'requests_kml': 320,
                     'requests_demo': 1050, 'requests_ows': 160, 'requests_app': 160, 'headers_checked': 45000,
                     'images_decoded': 1500, 'image_sizes_judged': 1300, 'xml_parsed': 2400, 'error_docs_shape_checked': 1800,
@@ -139,7 +139,10 @@ def build_conf():
         'c_tile': {'grids': ['gm'], 'sources': ['tiles_m']},
         'c_jpeg': {'grids': ['gm'], 'format': 'image/jpeg', 'sources': ['wms_m']},
         'c_bad': {'grids': ['gm'], 'sources': ['wms_bad']},
+        'c_cov': {'grids': ['gm'], 'sources': ['wms_cov_noise']},
     }
+    conf['sources']['wms_cov_noise'] = {'type': 'wms', 'req': {'url': 'http://noise/service', 'layers': 'a'}, 'supported_srs': ['EPSG:3857'],
+                                        'coverage': {'bbox': [0, 0, 8, 48], 'srs': 'EPSG:4326'}}
     conf['layers'] = [
         {'name': 'cached', 'title': 'Cached multi', 'sources': ['c_multi', 'fi_only']},
         {'name': 'direct', 'title': 'Cascaded', 'sources': ['wms_any']},
@@ -153,6 +156,7 @@ def build_conf():
         {'name': 'broken_direct', 'title': 'Broken cascaded', 'sources': ['wms_bad']},
         {'name': 'covered', 'title': 'Coverage limited', 'sources': ['wms_cov']},
         {'name': 'leg', 'title': 'Static legend', 'sources': ['c_m'], 'legendurl': 'http://fi/legend.png'},
+        {'name': 'covtile', 'title': 'Cache of a coverage limited source', 'sources': ['c_cov']},
     ]
     conf['services'] = {
         'demo': {},
@@ -1805,8 +1809,118 @@ def sweep_items():
     return out
 
 
+# ---------------------------------------------------------------------------------------------------------------------
+# overlapping requests: a WSGI server may hold several response iterables of one application at the same time (one per
+# connection) and read them in any order; many pass a wsgi.file_wrapper that closes what it was given. No threads involved:
+# the interleaving is chosen here, deterministically.
+# ---------------------------------------------------------------------------------------------------------------------
+
+OVERLAP_PATHS = [
+    ('tiles', '/tiles/covtile/gm/3/0/0.png', ''),        # far from the source coverage: the layer's empty tile
+    ('tiles', '/tiles/covtile/gm/3/1/1.png', ''),
+    ('tiles', '/tiles/covtile/gm/4/2/3.png', ''),
+    ('tms', '/tms/1.0.0/covtile/gm/2/0/0.png', ''),
+    ('tiles', '/tiles/covtile/gm/3/4/4.png', ''),        # inside the coverage
+    ('tiles', '/tiles/cached/gm/2/1/1.png', ''),
+    ('wmts', '/service', 'SERVICE=WMTS&VERSION=1.0.0&REQUEST=GetTile&LAYER=covtile&STYLE=&TILEMATRIXSET=gm&TILEMATRIX=03&TILEROW=7&TILECOL=0&FORMAT=image/png'),
+    ('wms', '/service', 'SERVICE=WMS&VERSION=1.1.1&REQUEST=GetMap&LAYERS=covtile&STYLES=&SRS=EPSG:3857&BBOX=-15000000,-9000000,-14000000,-8000000&WIDTH=64&HEIGHT=64&FORMAT=image/png&TRANSPARENT=TRUE'),
+    ('wms', '/service', 'SERVICE=WMS&VERSION=1.1.1&REQUEST=GetCapabilities'),
+    ('tms', '/tms/1.0.0/', ''),
+    ('kml', '/kml/covtile/gm/0/0/0.kml', ''),
+]
+
+
+def run_overlap(run, case):
+    rng = run.rng('overlap', case['i'])
+    w = world(run, 'A')
+    CURRENT[0] = w
+    fw = bool(case['i'] % 2)
+    k = rng.randint(2, 5)
+    picks = [rng.choice(OVERLAP_PATHS[:5]) for _ in range(2)] + [rng.choice(OVERLAP_PATHS) for _ in range(k - 2)]
+    rng.shuffle(picks)
+    reqs = [{'m': 'GET', 'path': p_, 'qs': q_, 'h': {}, 'fw': fw} for (_, p_, q_) in picks]
+
+    def alone(rq):
+        o = call_app(w.app, rq)
+        st = o['starts'][0] if o['starts'] else (None, [])
+        return (st[0], o['body'], o['exc'])
+    ref = [alone(rq) for rq in reqs]
+    ref2 = [alone(rq) for rq in reqs]
+    if ref != ref2:
+        run.dc('overlap_requests_not_repeatable_when_alone')
+        return
+    if any(r_[2] for r_ in ref):
+        run.violation({'clause': 'exception_escaped', 'cause': None, 'source': '-', 'docclass': 'none', 'mode': 'alone_twice', 'file_wrapper': fw},
+                      {'i': case['i'], 'kind': 'overlap'}, 'request raised when issued alone: %r' % ([r_[2][-600:] for r_ in ref if r_[2]][:1],))
+        return
+    # all iterables first, then read them chunk by chunk in a shuffled round-robin, then close
+    got = []
+    opened = []
+    for rq in reqs:
+        env = make_environ(rq)
+        rec = {'starts': [], 'chunks': [], 'exc': None}
+
+        def start_response(status, headers, exc_info=None, rec=rec):
+            rec['starts'].append((status, headers))
+            return lambda data: rec['chunks'].append(data)
+        try:
+            it = w.app(env, start_response)
+            opened.append((rec, iter(it), it))
+        except Exception as ex:
+            rec['exc'] = repr(ex)
+            opened.append((rec, None, None))
+    live = [o for o in opened if o[1] is not None]
+    order = list(range(len(live)))
+    while live:
+        rng.shuffle(order)
+        for idx in list(range(len(live))):
+            rec, itr, it = live[idx]
+            try:
+                chunk = next(itr)
+                rec['chunks'].append(chunk if isinstance(chunk, bytes) else repr(chunk).encode())
+            except StopIteration:
+                rec['done'] = True
+            except Exception as ex:
+                rec['exc'] = ''.join(traceback.format_exception(type(ex), ex, ex.__traceback__))[-1200:]
+                rec['done'] = True
+        live = [o for o in live if not o[0].get('done')]
+    for rec, itr, it in opened:
+        try:
+            if it is not None and hasattr(it, 'close'):
+                it.close()
+        except Exception as ex:
+            rec['exc'] = rec['exc'] or ('close(): %r' % ex)
+    run.hit('overlap_rounds')
+    run.hit('overlapped_requests', len(reqs))
+    run.judge(('overlap', fw, tuple(sorted(set(p[0] for p in picks)))), nontrivial=True)
+    for i, (rec, _, _) in enumerate(opened):
+        st = rec['starts'][0] if rec['starts'] else (None, [])
+        body = b''.join(c for c in rec['chunks'] if isinstance(c, bytes))
+        clen = None
+        for kk, vv in st[1]:
+            if kk.lower() == 'content-length':
+                clen = vv
+        prob = None
+        if rec['exc']:
+            prob = ('exception_escaped', 'raised %s' % rec['exc'])
+        elif st[0] != ref[i][0]:
+            prob = ('status_differs_when_overlapped', 'status %r alone, %r overlapped' % (ref[i][0], st[0]))
+        elif body != ref[i][1]:
+            prob = ('body_differs_when_overlapped', 'body of %d bytes alone, %d bytes overlapped (Content-Length %s)' % (len(ref[i][1]), len(body), clen))
+        elif clen is not None and clen.isdigit() and int(clen) != len(body):
+            prob = ('content_length', 'Content-Length %s but %d body bytes' % (clen, len(body)))
+        if prob:
+            run.violation({'clause': prob[0], 'cause': None, 'source': '-', 'docclass': 'none', 'mode': 'overlapped', 'file_wrapper': fw},
+                          {'i': case['i'], 'kind': 'overlap'},
+                          '%d response iterables held at once (wsgi.file_wrapper %s), read in turns: request %s?%s: %s | all requests: %r' % (
+                              len(reqs), 'passed' if fw else 'absent', reqs[i]['path'], reqs[i]['qs'], prob[1], [(r_['path'], r_['qs'][:60]) for r_ in reqs]))
+            return
+
+
 def gen_cases(run):
     yield {'i': -1, 'items': DIRECTED}
+    for i in range(run.pick(120, 2000)):
+        yield {'i': 500000 + i, 'kind': 'overlap', 'must': True}
     sw = sweep_items()
     for k in range(0, len(sw), 40):
         yield {'i': -2 - k // 40, 'items': sw[k:k + 40], 'must': True}
@@ -1826,6 +1940,8 @@ def short_req(req):
 
 
 def run_case(run, case):
+    if case.get('kind') == 'overlap':
+        return run_overlap(run, case)
     items = case.get('items') or gen_requests(run, case['i'])
     for item in items:
         if run.out_of_time() and not run.replaying:
